@@ -113,6 +113,9 @@ Definition asrt_lop (cfg : config) (A : list (option arr)) (o : lop) : bool :=
   | OReextentMove _ x => stride_ok (mk_sizes x)
   | OReshape r x => match slot_of A r with Some ar => asrt_reshape ar x | None => true end
   | OWrite _ _ _ | ODestroy _ => true
+  (* view = view of another array (added with the lifecycle model's OViewAssign): every subarray::operator= overload
+     asserts extensions() == other.extensions() (array_ref.hpp:2128, :2136, :2160, :2166) *)
+  | OViewAssign _ _ vr vs => bx_eq (vs_exts vr) (vs_exts vs)
   end.
 
 (* no transcribed assertion is false along a history (each operation judged on the array objects it finds) *)
